@@ -119,6 +119,10 @@ func c02Site(o *origin, rng *rand.Rand, nSeeds int, discard []int) (hubs []strin
 				rt.Body = []byte("<a href=x>moved</a>")
 			case x == 9: // fail once (discarded status or 5xx) then fine
 				rt.FailFirst, rt.FailStatus, rt.Tag = 1, []int{429, 500, 503}[rng.Intn(3)], "fail-once"
+				if rng.Intn(2) == 0 { // a large error page: its records take long to hash and write, the retry is answered at once
+					rt.FailBody = c02Body(rng, "bin", []int{65536, 1 << 20, 6 << 20}[rng.Intn(3)])
+					rt.Tag = "fail-once-large-error-body"
+				}
 			case x == 10 || x == 11: // shared payload
 				rt.Body, rt.Gzip, rt.Tag = shared[rng.Intn(len(shared))], false, "shared-payload"
 				rt.Headers["Content-Type"] = "application/octet-stream"
